@@ -207,12 +207,3 @@ fn c11_alloc_twin() {
     kani::cover!(unsafe { os::N_MUNMAP } >= 2, "COVER:two-rejections");
     kani::cover!(true, "COVER:end");
 }
-
-/// ghost: number of PatchGuard values constructed (bound onto `PatchGuard::new` with #[kani::stub])
-pub(crate) static mut GUARDS_CREATED: usize = 0;
-pub(crate) fn counting_guard_new(func_ptr: *mut u8, original_bytes: Vec<u8>, patch_size: usize, jit_memory: *mut u8, jit_size: usize) -> PatchGuard {
-    unsafe {
-        GUARDS_CREATED += 1;
-    }
-    PatchGuard { func_ptr, original_bytes, patch_size, jit_memory, jit_size }
-}
